@@ -1,9 +1,9 @@
 # usage: showfn.py <patch> <relpath> <qualname>  -> print normalised function after loader passes
 import sys, os, subprocess, tempfile, shutil, ast
-sys.path.insert(0,'/verif')
+import os; sys.path.insert(0, os.path.dirname(os.path.dirname(os.path.abspath(__file__))))
 patch, rel, q = sys.argv[1:4]; patch = os.path.abspath(patch)
 d = tempfile.mkdtemp(prefix='showfn-')
-subprocess.run(['/verif/tools/scratch.sh', d, patch], check=True)
+subprocess.run([os.path.dirname(os.path.abspath(__file__)) + '/scratch.sh', d, patch], check=True)
 os.environ['AEIC_VERIF_REPO'] = d
 from sa.loader import Program
 prog = Program()
